@@ -7,7 +7,7 @@ import numpy.typing as npt
 
 from geometer.base import EQ_TOL_ABS, EQ_TOL_REL, LeviCivitaTensor, TensorDiagram
 from geometer.curve import absolute_conic
-from geometer.exceptions import NotCollinear, NotConcurrent
+from geometer.exceptions import NotCollinear, NotConcurrent, NotCoplanar
 from geometer.point import (
     I,
     J,
@@ -60,15 +60,22 @@ def crossratio(
         and isinstance(c, LineTensor)
         and isinstance(d, LineTensor)
     ):
-        if not np.all(is_concurrent(a, b, c, d)):
-            raise NotConcurrent("The lines are not concurrent: " + str([a, b, c, d]))
-
         if a.dim == 2:
+            if not np.all(is_concurrent(a, b, c, d)):
+                raise NotConcurrent("The lines are not concurrent: " + str([a, b, c, d]))
+
             # in the dual plane four concurrent lines are four collinear points with the same cross ratio
             a, b, c, d = (PointCollection.from_array(x.array) for x in (a, b, c, d))
         else:
+            # is_concurrent only handles lines in 2D: in 3D the lines are concurrent if c and d contain the common point of a and b
+            try:
+                vertex = a.meet(b)
+            except NotCoplanar as e:
+                raise NotConcurrent("The lines are not concurrent: " + str([a, b, c, d])) from e
+            if not np.all(c.contains(vertex) & d.contains(vertex)):
+                raise NotConcurrent("The lines are not concurrent: " + str([a, b, c, d]))
+
             # section of the pencil with a plane that does not contain its vertex: four collinear points with the same cross ratio
-            vertex = a.meet(b)
             e = PlaneCollection.from_array(np.conjugate(vertex.array))
             a, b, c, d = e.meet(a), e.meet(b), e.meet(c), e.meet(d)
 
